@@ -32,4 +32,8 @@ CHECKS = {
   text='Pcoll/Rcoll of a real two-level Step are checked on monomials, row sums, R*P=I and an independent Lagrange matrix; every mesh_to_mesh interpolation row (periodic 2^k, Dirichlet 2^k-1, orders 2-8, nested shortcut on/off) is compared with exact rational Lagrange weights on the p nearest coarse points chosen in integer index arithmetic; '
        '2-D/3-D as Kronecker products, per component for imex/comp2 meshes, type preservation; FFT prolongation exact on band-limited data and injection after it; identity transfers copy and keep the type.',
   note='Restriction is checked for structure (positive multiple of the transposed interpolation of the restriction order, per component/dimension), not for a particular scaling, which the statement does not fix. Known finding F14 (periodic order == number of coarse points); F7 fixed.'),
+ 'C06': dict(
+  technique='property-based testing: Hypothesis-generated (t0, dt, Tend, block size, levels, restart/step-size scripts) runs of the real controller; invariants over observer snapshots; exact-rational step counting',
+  text='Each generated run of controller_nonMPI is observed block by block through a harness convergence controller; accepted steps are reconstructed and judged for contiguous tiling from t0, bit-exact value chaining, restart continuation at the restarted step, no start at/after Tend, no early stop, returned value == last accepted end value, caller u0 untouched/copied, and (fixed dt) the exact number of steps computed in rational arithmetic.',
+  note='Times are compared up to 4 ulp of the largest operand. The step-count clause leaves a thin band (1e-9..1e-6 from an integer ratio) unjudged. Known finding F4 (k+1 steps from the absolute 10*eps activity threshold) is matched narrowly. controller_MPI is covered by C08 only; ParaDiag controller tiling is not yet covered.'),
 }
